@@ -9,6 +9,9 @@ reports it; the translator never guesses):
       (edb/common/parsing.py::Precedence.__init_subclass__: default relation is `>` previous).
   edb/edgeql/parser/grammar/tokens.py
       `class T_X(Token, lextoken='...')` -> text of the token; keywords come from the lexer.
+  edb/edgeql/codegen.py
+      `_WEAKER_THAN_NOT = frozenset({'..', ...})`, `_TIGHTER_THAN_UMINUS = frozenset({'..', ...})`: the operator
+      names the printer consults in _prefix_swallows_op (mapped to operator ids; `{` = shape).
   edb/edgeql/parser/grammar/expressions.py
       class Expr: every method must be one of
         * a binary operator production  reduce_Expr_<TOK>[_<TOK>]_Expr  whose body is
@@ -222,6 +225,27 @@ def read_expr(path, lextok):
     return binops, fixed_prec, fixed_hashes
 
 
+# ------------------------------------------------------------------ codegen.py: the printer's own precedence facts
+
+def read_codegen_sets(path):
+    """`_WEAKER_THAN_NOT = frozenset({...})` and `_TIGHTER_THAN_UMINUS = frozenset({...})` of string literals
+    (used by _prefix_swallows_op to decide when a left operand needs parentheses)"""
+    mod = ast.parse(open(path, encoding='utf-8').read())
+    out = {}
+    for n in mod.body:
+        if isinstance(n, ast.Assign) and len(n.targets) == 1 and isinstance(n.targets[0], ast.Name) \
+                and n.targets[0].id in ('_WEAKER_THAN_NOT', '_TIGHTER_THAN_UMINUS'):
+            v = n.value
+            _need(isinstance(v, ast.Call) and ast.unparse(v.func) == 'frozenset' and len(v.args) == 1
+                  and isinstance(v.args[0], ast.Set)
+                  and all(isinstance(e, ast.Constant) and isinstance(e.value, str) for e in v.args[0].elts),
+                  f'codegen.py: {n.targets[0].id} is not a frozenset of string literals')
+            _need(n.targets[0].id not in out, f'codegen.py: {n.targets[0].id} assigned twice')
+            out[n.targets[0].id] = sorted(e.value for e in v.args[0].elts)
+    _need(set(out) == {'_WEAKER_THAN_NOT', '_TIGHTER_THAN_UMINUS'}, 'codegen.py: _WEAKER_THAN_NOT / _TIGHTER_THAN_UMINUS not found')
+    return out
+
+
 # ------------------------------------------------------------------ emit
 
 # keywords (not lextoken classes) the model refers to
@@ -241,6 +265,8 @@ def translate(repo):
     classes = read_precedence(p_prec)
     lextok = read_tokens(p_tok)
     binops, fixed_prec, fixed_hashes = read_expr(p_expr, lextok)
+    p_codegen = os.path.join(repo, 'edb', 'edgeql', 'codegen.py')
+    cg_sets = read_codegen_sets(p_codegen)
     expected = json.load(open(FIXED_HASHES_FILE))
     for k, h in fixed_hashes.items():
         _need(k in expected, f'expressions.py: no recorded shape for {k}')
@@ -328,10 +354,30 @@ def translate(repo):
     for k, v in consts.items():
         w(f'Definition {k} : prec := {P(v)}.')
     w('')
+    w('(* edb/edgeql/codegen.py: operators (ids of binop_table) the printer believes to bind weaker than prefix NOT /')
+    w('   tighter than unary minus; `{` (a shape) is the flag *)')
+
+    def ids(names, what):
+        out_ = []
+        for nm in names:
+            if nm == '{':
+                continue
+            _need(nm in opnames, f'codegen.py: {what} names an unknown operator {nm!r}')
+            out_.append(opnames.index(nm))
+        return out_
+    wk = ids(cg_sets['_WEAKER_THAN_NOT'], '_WEAKER_THAN_NOT')
+    tg = ids(cg_sets['_TIGHTER_THAN_UMINUS'], '_TIGHTER_THAN_UMINUS')
+    _need('{' not in cg_sets['_WEAKER_THAN_NOT'], 'codegen.py: `{` in _WEAKER_THAN_NOT')
+    w('Definition cg_weaker_than_not : list N := [' + '; '.join(f'{i}%N' for i in sorted(wk)) + '].')
+    w('Definition cg_tighter_than_uminus : list N := [' + '; '.join(f'{i}%N' for i in sorted(tg)) + '].')
+    w('Definition cg_brace_tighter : bool := ' + ('true' if '{' in cg_sets['_TIGHTER_THAN_UMINUS'] else 'false') + '.')
+    w('')
     text = '\n'.join(out) + '\n'
     manifest = {
         'generated_by': 'harness/translate/c01_grammar.py',
-        'sources': {os.path.relpath(p, repo): hashlib.sha256(open(p, 'rb').read()).hexdigest() for p in (p_prec, p_tok, p_expr)},
+        'sources': {os.path.relpath(p, repo): hashlib.sha256(open(p, 'rb').read()).hexdigest()
+                    for p in (p_prec, p_tok, p_expr, p_codegen)},
+        'codegen_sets': cg_sets,
         'symbols': symid,
         'symbol_text': {s: lextok.get(s, s.lower() if s != 'ORDERBY' else 'order by') for s in syms},
         'operators': opnames,
